@@ -1,10 +1,86 @@
 /-
   EG.Driver.Adapters — model side of the `adapters.*` correspondence streams (harness/src/m_adapters.rs).
+
+  adapters.run px py pw ph <stack> <calls>
+    -> bb=<boxes> l1=<R1 log> m1=<R1 map> l2=<R2 log> m2=<R2 map>
 -/
 import EG.Driver.Util
+import EG.Model.Adapters
 namespace EG.Driver
 open EG
 
-def handleAdapters (_stream : String) (_t : Toks) : Option String := none
+/-- `x,y,w,h` -/
+def parseRect4 (s : String) : Rect :=
+  match (s.splitOn ",") with
+  | [x, y, w, h] => ⟨⟨parseInt x, parseInt y⟩, ⟨parseNat w, parseNat h⟩⟩
+  | _ => Rect.zero
+
+/-- The colour conversion of the k-th colour-converted adapter counted from the root
+(`impl From<L(k+1)> for L(k)` in m_adapters.rs). -/
+def convFn (k : Nat) (c : Color) : Color := 3 * c + k + 1
+
+/-- adapter stack, root-most first; `v` adapters are numbered from the root -/
+def parseStack (s : String) : Stack :=
+  if s == "-" then [] else
+  let rec go (parts : List String) (k : Nat) : Stack :=
+    match parts with
+    | [] => []
+    | a :: rest =>
+      if a.startsWith "c:" then Adapter.clipped (parseRect4 (a.drop 2).toString) :: go rest k
+      else if a.startsWith "r:" then Adapter.cropped (parseRect4 (a.drop 2).toString) :: go rest k
+      else if a.startsWith "t:" then
+        match ((a.drop 2).toString.splitOn ",") with
+        | [x, y] => Adapter.translated ⟨parseInt x, parseInt y⟩ :: go rest k
+        | _ => go rest k
+      else Adapter.converted (convFn k) :: go rest (k + 1)
+  go (s.splitOn "/") 0
+
+def parsePixel (s : String) : Pt × Color :=
+  match s.splitOn "," with
+  | [x, y, c] => (⟨parseInt x, parseInt y⟩, parseNat c)
+  | _ => (Pt.zero, 0)
+
+def parseCall (s : String) : Call :=
+  if s.startsWith "di:" then
+    let body := (s.drop 3).toString
+    if body == "-" then Call.drawIter [] else Call.drawIter ((body.splitOn ";").map parsePixel)
+  else if s.startsWith "fc:" then
+    match (s.drop 3).toString.splitOn ":" with
+    | [a, cs] => Call.fillContiguous (parseRect4 a) (parseNatList cs)
+    | _ => Call.clear 0
+  else if s.startsWith "fs:" then
+    match (s.drop 3).toString.splitOn ":" with
+    | [a, c] => Call.fillSolid (parseRect4 a) (parseNat c)
+    | _ => Call.clear 0
+  else Call.clear (parseNat (s.drop 3).toString)
+
+def parseCalls (s : String) : List Call :=
+  if s == "-" then [] else (s.splitOn "|").map parseCall
+
+/-- `Call::fmt` of common.rs -/
+private def fmtCall : Call → String
+  | .drawIter px => "di:" ++ fmtPix px
+  | .fillContiguous a cs => s!"fc:{fmtRect a}:{fmtNats cs}"
+  | .fillSolid a c => s!"fs:{fmtRect a}:{c}"
+  | .clear c => s!"cl:{c}"
+
+private def fmtLog (cs : List Call) : String := joinOr "|" (cs.map fmtCall)
+
+def handleAdapters (stream : String) (t : Toks) : Option String :=
+  match stream with
+  | "adapters.run" =>
+    let (B, t) := t.rect
+    let (st, t) := t.str
+    let (cl, _) := t.str
+    let stack := parseStack st
+    let calls := parseCalls cl
+    let rootCalls := calls.map (lowerStack B stack)
+    let boxes := stackBoxes B stack
+    -- R1: everything arrives as draw_iter (trait defaults), R2: the calls themselves
+    let log1 := rootCalls.map (fun c => Call.drawIter (c.lowerDefault B))
+    let m1 := canonPix (rootCalls.flatMap (Call.writesDefault B))
+    let m2 := canonPix (rootCalls.flatMap (Call.writesNative B))
+    some s!"bb={joinOr "/" (boxes.map fmtRect)} l1={fmtLog log1} m1={fmtPix m1} l2={fmtLog rootCalls} m2={fmtPix m2}"
+  | _ => none
 
 end EG.Driver
